@@ -39,6 +39,34 @@ theorem div_exact (a b : ℤ) (hb : 0 < b) : (b * a) / b = a :=
 theorem div_eq (x b y : ℤ) (hb : 0 < b) (h : x = b * y) : x / b = y := by
   subst h; exact Int.mul_ediv_cancel_left y (ne_of_gt hb)
 
+/-- C17: quotient bookkeeping of the thinning loop. -/
+theorem div_succ (i t : ℤ) (_hi : 0 ≤ i) (ht : 1 ≤ t) :
+    i = t * (i / t) + i % t ∧ 0 ≤ i % t ∧ i % t < t ∧
+    (((i + 1) % t = 0 → (i + 1) / t = i / t + 1 ∧ i + 1 = t * (i / t + 1)) ∧
+     ((i + 1) % t ≠ 0 → (i + 1) / t = i / t)) := by
+  have tpos : 0 < t := by omega
+  have h1 : t * (i / t) + i % t = i := Int.mul_ediv_add_emod i t
+  have h2 := Int.emod_nonneg i (ne_of_gt tpos)
+  have h3 := Int.emod_lt_of_pos i tpos
+  have hd : t * (i / t + 1) = t * (i / t) + t := by ring
+  refine ⟨by omega, h2, h3, ?_, ?_⟩
+  · intro h0
+    by_cases hr : i % t + 1 = t
+    · have key := (Int.ediv_emod_unique tpos (a := i + 1) (q := i / t + 1) (r := 0)).mpr
+        ⟨by omega, le_refl 0, tpos⟩
+      exact ⟨key.1, by omega⟩
+    · have key := (Int.ediv_emod_unique tpos (a := i + 1) (q := i / t) (r := i % t + 1)).mpr
+        ⟨by omega, by omega, by omega⟩
+      omega
+  · intro h0
+    by_cases hr : i % t + 1 = t
+    · have key := (Int.ediv_emod_unique tpos (a := i + 1) (q := i / t + 1) (r := 0)).mpr
+        ⟨by omega, le_refl 0, tpos⟩
+      exact absurd key.2 h0
+    · have key := (Int.ediv_emod_unique tpos (a := i + 1) (q := i / t) (r := i % t + 1)).mpr
+        ⟨by omega, by omega, by omega⟩
+      exact key.1
+
 /-! ### C15: the combinadic rank is strictly monotone (hence injective) and bounded by C(n,k);
     with equal finite cardinalities this makes unranking a bijection. -/
 
